@@ -887,9 +887,35 @@ def reject_variants(rng, cfg, t_ok, last_v_t, last_a_t, small=False):
     return out
 
 
+def fam_audio_defects(rng, n, prefix):
+    """EVERY audio rejection reason once per round (n rounds), as the last audio call before finish, on an
+    AAC track and on an Opus track: each ADTS header defect (syncword, reserved rate index, truncated, header
+    only, MPEG-2 bit, layer, channel configuration 0, missing CRC bytes), each Opus defect, empty, old,
+    infinite, gap"""
+    out = []
+    for r in range(n):
+        for a in ("aac-lc", "opus", "aac-he"):
+            cfg = rand_cfg(rng, codec="h264", audio=a, dims=(640, 480), meta=0)
+            cfg["rate"], cfg["ch"] = 48000, 2
+            for name, bad in [v for v in reject_variants(rng, cfg, 0.0, 0.54, 0.52) if v[0].startswith("a-") or v[0].startswith("ea-")]:
+                c = Case("%sr%d_%s_%s" % (prefix, r, a, name), "mux")
+                emit_cfg(c, cfg, rng)
+                c.o("wv", fb(0.5), hx(video_key(rng, "h264")), 1)
+                c.o("wa", fb(0.5), hx(audio_frame(rng, a)))
+                c.o("wa", fb(0.52), hx(audio_frame(rng, a)))
+                c.o("wv", fb(0.54), hx(video_delta(rng, "h264")), 0)
+                c.o(*bad)
+                if r % 2:
+                    c.o("wa", fb(0.56), hx(audio_frame(rng, a)))
+                c.o("fin", 0)
+                out.append(c)
+    return out
+
+
 def fam_reject_matrix(rng, n, prefix):
     out = []
     k = 0
+    turn = rng.below(1000)      # the rejection reasons are taken IN TURN (not drawn), so that each one occurs
     while len(out) < n:
         cfg = rand_cfg(rng, audio=rng.choice(["none-cfg", "aac-lc", "aac-he", "opus", "opus"]), dims=(640, 480),
                        meta=rng.choice([0, 0, 5]))
@@ -904,8 +930,8 @@ def fam_reject_matrix(rng, n, prefix):
         rest.sort(key=lambda x: x[0])
         seq = base + [o for _, o in rest]
         variants = reject_variants(rng, cfg, 0.0, vt[-1], at[-1] if at else 0.0)
-        name, bad = rng.choice(variants)
-        pos = rng.choice(["first", "middle", "last", "last", "last2"])
+        name, bad = variants[(turn + k) % len(variants)]
+        pos = rng.choice(["first", "middle", "last", "last", "last2"]) if k % 3 else "last"
         c = Case("%s%d_%s_%s" % (prefix, k, name, pos), "mux")
         k += 1
         emit_cfg(c, cfg, rng)
